@@ -1,5 +1,10 @@
 """Which tests decide which property, and the budgets per tier."""
 
+def F(name, fuzztime, rule=""):
+    """native fuzz target: thorough tier only"""
+    return {"name": name, "quick": {"skip": True}, "thorough": {"fuzz": fuzztime}, "rule": rule}
+
+
 def T(name, quick, thorough=None):
     return {"name": name, "quick": quick, "thorough": thorough if thorough is not None else quick}
 
@@ -56,6 +61,9 @@ PROPS["C18"] = {
                   T("TestC18Flags", {"checks": 5000}, {"checks": 100000, "shards": 4}),
                   T("TestC18Payload", {"checks": 4000}, {"checks": 80000, "shards": 4}),
                   T("TestC18Exclude", {"checks": 2500}, {"checks": 50000, "shards": 8})],
+    }, {
+        "pkg": "command", "fuzz": True, "thorough_only": True,
+        "tests": [F("FuzzC18Ports", "60s"), F("FuzzC18Rate", "60s"), F("FuzzC18Flags", "45s"), F("FuzzC18Exclude", "60s")],
     }],
 }
 
@@ -93,6 +101,9 @@ PROPS["C06"] = {
     "units": [{
         "pkg": "command",
         "tests": [T("TestC06Frames", {"checks": 5000, "shards": 4}, {"checks": 30000, "shards": 16})],
+    }, {
+        "pkg": "command", "fuzz": True, "thorough_only": True,
+        "tests": [F("FuzzC06TCP", "90s"), F("FuzzC06ICMP", "90s"), F("FuzzC06ARP", "60s")],
     }],
 }
 
@@ -148,6 +159,9 @@ PROPS["C02"] = {
         "pkg": "command",
         "tests": [T("TestC02TargetStrings", {"checks": 500, "shards": 4}, {"checks": 6000, "shards": 16}),
                   T("TestC02Exclusion", {"checks": 60, "shards": 4}, {"checks": 800, "shards": 16})],
+    }, {
+        "pkg": "command", "fuzz": True, "thorough_only": True,
+        "tests": [F("FuzzC02Target", "90s")],
     }],
 }
 
